@@ -1,6 +1,10 @@
 #!/venv/bin/python
 """Print the DESIGN section-9 coverage table from /verif/evidence/*.json (last run of each check)."""
-import glob, json
+import glob, json, sys
+lines = []
+_print = print
+def print(x):  # noqa: A001 - collect instead of printing
+    lines.append(x)
 print("| check | tier | cases | states | transitions | real-code evaluations | traces validated | distinct outcomes | wall |")
 print("|---|---|---|---|---|---|---|---|---|")
 for f in sorted(glob.glob("/verif/evidence/C*.json")):
@@ -8,3 +12,12 @@ for f in sorted(glob.glob("/verif/evidence/C*.json")):
     fmt = lambda n: f"{n:,}".replace(",", " ")
     print(f"| {d['property_id']} | {d['tier']} | {fmt(c['cases'])} | {fmt(c['states'])} | {fmt(c['transitions'])} | {fmt(c['evaluations'])} | "
           f"{fmt(c['traces_validated_against_impl'])} | {c['distinct_outcomes']} | {d['wall_s']:.0f} s |")
+
+if "--write" in sys.argv:
+    p = "/verif/DESIGN.md"
+    d = open(p).read()
+    a, b = d.index("<!-- COVERAGE-TABLE-BEGIN -->") + len("<!-- COVERAGE-TABLE-BEGIN -->"), d.index("<!-- COVERAGE-TABLE-END -->")
+    open(p, "w").write(d[:a] + "\n" + "\n".join(lines) + "\n" + d[b:])
+    _print("DESIGN.md updated")
+else:
+    _print("\n".join(lines))
